@@ -1341,7 +1341,11 @@ class Discovery(object):
 
 
         """
-        if replica not in self._computations_data:
+        if publish and replica not in self._computations_data:
+            # When the registration comes from the directory
+            # (publish=False), it is always recorded: the computation may be
+            # momentarily unregistered (e.g. while it is migrated to another
+            # agent) and its replicas are still there when it comes back.
             raise UnknownComputation('Cannot register replica for '
                                      'unknown computation ' + replica)
         agent = self.own_agent if agent is None else agent
